@@ -185,7 +185,7 @@ def run(chk):
     interaction_stream(chk)          # correspondence on the interaction corpus (tools/orch/interact.py)
     rng = random.Random(chk.seed)
     schema = json.load(open(os.path.join(R.WORK, 'ast_schema.json')))
-    n = 800 if chk.tier == 'quick' else 12000
+    n = 800 if chk.tier == 'quick' else 4000
     k = 2 if chk.tier == 'quick' else 4
     chk.rule = ('accepted inputs: %d generated programs x %d random layouts with comments (multi-byte characters in identifiers, strings and comments before the checked tokens, tabs, CR LF, multi-line raw strings and comments), all corpus snippets, 1-3 token mutants, token soup and the 19 exhaustive context streams (every accepted one is checked); '
                 'oracle: every position field names the lexeme the constraint table says, bracket pairs are ordered and contain their contents strictly, siblings are in source order.  non-trivial: accepted inputs with at least one non-ASCII char or a comment before the last token count separately in `multibyte_or_comment_cases`; distinct by text.' % (n, k))
@@ -202,6 +202,9 @@ def run(chk):
             cases.append((mo, s.replace('package p', '/* 注释 😀 é */ package p // ключ\n', 1)))
         elif mo == 'expr':
             cases.append((mo, '/*世界😀*/ ' + s))
+    # a byte order mark in front of an in-memory source is an ordinary (illegal) character of that string: if such an
+    # input is ever accepted, its positions must still index the string the caller passed
+    cases += [(mo, '\ufeff' + s) for mo, s in base[:: 5]]
     # the same through parse_file (from disk): CR LF files, a byte order mark in front
     disk = [('disk', s) for (mo, s) in cases if mo == 'file' and '\r\n' in s][:400]
     disk += [('disk', '\ufeff' + s) for (mo, s) in cases if mo == 'file' and any(ord(c) > 127 for c in s)][:200]
